@@ -260,7 +260,18 @@ func c15Packets(c *Ctx, p *Prog) {
 // (conn.receiveState.mac).
 func isFieldLoadPath(v ssa.Value, typ, field string) bool {
 	k, _, ok := fieldLoad(v)
-	return ok && k.Type == typ && k.Field == field
+	if ok && k.Type == typ && k.Field == field {
+		return true
+	}
+	// the whole of an array field: conn.receiveState.mac[:]
+	if sl, isSl := unspill(v).(*ssa.Slice); isSl && sl.Low == nil && sl.High == nil {
+		if fa, isFA := sl.X.(*ssa.FieldAddr); isFA {
+			if k, ok := fieldKeyOf(fa.X.Type(), fa.Field); ok && k.Type == typ && k.Field == field {
+				return true
+			}
+		}
+	}
+	return false
 }
 
 func c15Tickets(c *Ctx, p *Prog) {
@@ -513,15 +524,17 @@ func c15Handshake(c *Ctx, p *Prog) {
 			if len(finalWrites) != 2 {
 				bad = fmt.Sprintf("%d MAC writes dominate the final Sum, expected 2 (data, hour)", len(finalWrites))
 			} else {
-				d, ok := unspill(finalWrites[0].Common().Args[0]).(*ssa.Slice)
-				if !ok || d.Low == nil || d.High == nil || unspill(d.X) != unspill(rx.X) {
+				// both as absolute ranges of the response (slices of slices resolved)
+				dRoot, dLo, dHi, dOpen := sliceAbs(lc, finalWrites[0].Common().Args[0])
+				rRoot, rLo, rHi, rOpen := sliceAbs(lc, rx)
+				if dRoot != rRoot || dOpen || rOpen || dRoot != ssa.Value(ps.Params[1]) {
 					bad = "the MAC data is not a slice of the response"
 				} else {
-					if k, _ := intConst(d.Low); k != 192 {
+					if !dLo.Equal(linConst(192)) {
 						bad = "the MAC data does not start right after the 192-byte public key (which was hashed on the first invocation)"
 					}
-					if !lc.Of(d.High).Equal(lc.Of(rx.Low)) || !lc.Of(rx.High).Sub(lc.Of(rx.Low)).Equal(linConst(16)) {
-						bad = fmt.Sprintf("MAC input ends at %s, received MAC is [%s:%s]", lc.Of(d.High), lc.Of(rx.Low), lc.Of(rx.High))
+					if !dHi.Equal(rLo) || !rHi.Sub(rLo).Equal(linConst(16)) {
+						bad = fmt.Sprintf("MAC input ends at %s, received MAC is [%s:%s]", dHi, rLo, rHi)
 					}
 				}
 				if !isFieldLoad(finalWrites[1].Common().Args[0], "transports/scramblesuit.ssDHClientHandshake", "epochHour") {
@@ -636,4 +649,23 @@ func c15Handshake(c *Ctx, p *Prog) {
 	} else {
 		ob.HoldNT("HKDF-Expand(seed); tx (0:32,32:40,80:112) rx (40:72,72:80,112:144)")
 	}
+}
+
+// sliceAbs resolves a slice of slices to its root value and the absolute
+// range [lo, hi) it covers there (open: the range runs to the end of root).
+func sliceAbs(lc *linCtx, v ssa.Value) (root ssa.Value, lo, hi Lin, open bool) {
+	v = unspill(v)
+	sl, ok := v.(*ssa.Slice)
+	if !ok {
+		return v, linConst(0), Lin{}, true
+	}
+	root, lo0, hi0, open0 := sliceAbs(lc, sl.X)
+	lo = lo0
+	if sl.Low != nil {
+		lo = lo0.Add(lc.Of(sl.Low))
+	}
+	if sl.High != nil {
+		return root, lo, lo0.Add(lc.Of(sl.High)), false
+	}
+	return root, lo, hi0, open0
 }
